@@ -1237,6 +1237,8 @@ class Stack(list):
             return False
         if sequence == 0xffffffff:
             return False
+        if len(self[-1]) > 5:
+            return False
         locktime = decode_num(self[-1])
         if locktime < 0:
             return False
